@@ -92,9 +92,13 @@ type mtxn struct {
 	open     bool
 	dead     bool
 	readOnly bool
+	// commits (cids of the heads of the documents it wrote) produced inside the transaction, and its end
+	cids      map[string]bool
+	committed bool
 }
 
 type e4aRun struct {
+	outsideCids map[string]bool // head commits produced by non-transactional calls (content-identical ones are legitimately visible)
 	p         *Plan
 	res       *Result
 	n         *SimNode
@@ -168,6 +172,7 @@ func runC06(p *Plan, res *Result) {
 			if s.A < 0 {
 				r.applyOp(i, nil, s.B, s.C, s.D, fmt.Sprintf("o%d", i))
 				r.shape = append(r.shape, fmt.Sprintf("x:%d", s.B))
+				r.noteOutsideCids()
 				continue
 			}
 			t := r.txns[s.A]
@@ -179,6 +184,10 @@ func runC06(p *Plan, res *Result) {
 			}
 			r.applyOp(i, t, s.B, s.C, s.D, fmt.Sprintf("t%d_%d", s.A, i))
 			r.shape = append(r.shape, fmt.Sprintf("%d:%d", s.A, s.B))
+			if s.B < 3 && !t.dead && len(res.Viols) == 0 {
+				r.noteCids(t)
+				r.checkCids(i, "while the transaction is open")
+			}
 		case "commit", "discard":
 			t := r.txns[s.A]
 			if t == nil || !t.open {
@@ -189,6 +198,7 @@ func runC06(p *Plan, res *Result) {
 				t.txn.Discard(n.reqCtx())
 				r.shape = append(r.shape, fmt.Sprintf("d%d", s.A))
 				r.checkOutside(i, "after discard")
+				r.checkCids(i, "after discard")
 				continue
 			}
 			err := t.txn.Commit(n.reqCtx())
@@ -201,9 +211,11 @@ func runC06(p *Plan, res *Result) {
 				res.Stats["commit_conflicts"]++
 				t.txn.Discard(n.reqCtx())
 				r.checkOutside(i, "after failed commit")
+				r.checkCids(i, "after failed commit")
 				continue
 			}
 			res.Stats["commits_ok"]++
+			t.committed = true
 			// lost-update oracle: no transaction that committed after this one started modified a common document
 			for _, c := range r.commits {
 				if c.seq > t.startSeq {
@@ -226,6 +238,7 @@ func runC06(p *Plan, res *Result) {
 				who  string
 			}{r.seq, t.modified, fmt.Sprintf("transaction %d", s.A)})
 			r.checkOutside(i, "after commit")
+			r.checkCids(i, "after commit")
 		}
 	}
 	// close whatever is still open
@@ -416,5 +429,77 @@ func (r *e4aRun) checkOutside(i int, when string) {
 	if want := viewRows(r.committed, nil); got != want {
 		clause := "commit-not-atomic-or-leak"
 		r.res.violate("C06", clause, clause+"/"+strings.ReplaceAll(when, " ", "-"), i, "%s a non-transactional listing returned %s, committed state is %s", when, short(got), short(want))
+	}
+}
+
+// noteCids records the head commits of the documents the transaction has modified, as the transaction sees them.
+func (r *e4aRun) noteCids(t *mtxn) {
+	if t.cids == nil {
+		t.cids = map[string]bool{}
+	}
+	for id := range t.modified {
+		data, errs := gqlOn(r.n.reqCtx(), t.txn, fmt.Sprintf(`query { latestCommits(docID: %q) { cid } }`, id))
+		if len(errs) > 0 {
+			continue
+		}
+		for _, row := range rows(data, "latestCommits") {
+			t.cids[fmt.Sprint(row["cid"])] = true
+		}
+	}
+}
+
+// checkCids: a commit made inside a transaction can be fetched by its cid from outside exactly when the
+// transaction has committed - not while it is open, and never after it was discarded or failed.
+func (r *e4aRun) checkCids(i int, when string) {
+	committedCids := map[string]bool{}
+	for c := range r.outsideCids {
+		committedCids[c] = true
+	}
+	for _, t := range r.txns {
+		if t.committed {
+			for c := range t.cids {
+				committedCids[c] = true
+			}
+		}
+	}
+	for k, t := range r.txns {
+		for c := range t.cids {
+			if committedCids[c] && !t.committed {
+				continue // the same content was committed by another transaction
+			}
+			data, errs := r.n.GQL(fmt.Sprintf(`query { commits(cid: %q) { cid } }`, c))
+			visible := len(errs) == 0 && len(rows(data, "commits")) > 0
+			r.res.Stats["commit_lookups_by_cid"]++
+			if visible && !t.committed {
+				state := "open"
+				if !t.open {
+					state = "discarded or failed"
+				}
+				r.res.violate("C06", "uncommitted-write-visible", "uncommitted-write-visible/commit-by-cid/"+strings.ReplaceAll(state, " ", "-"), i,
+					"%s: commits(cid: %s) outside returns the commit made inside transaction %d, which is %s", when, cidShort(c), k, state)
+				return
+			}
+			if !visible && t.committed {
+				r.res.violate("C06", "committed-write-invisible", "commit-by-cid", i,
+					"%s: commits(cid: %s) outside does not return the commit of the committed transaction %d: %v", when, cidShort(c), k, errs)
+				return
+			}
+		}
+	}
+}
+
+// noteOutsideCids records the current heads of all committed documents (called after a non-transactional write).
+func (r *e4aRun) noteOutsideCids() {
+	if r.outsideCids == nil {
+		r.outsideCids = map[string]bool{}
+	}
+	for id := range r.committed {
+		data, errs := r.n.GQL(fmt.Sprintf(`query { latestCommits(docID: %q) { cid } }`, id))
+		if len(errs) > 0 {
+			continue
+		}
+		for _, row := range rows(data, "latestCommits") {
+			r.outsideCids[fmt.Sprint(row["cid"])] = true
+		}
 	}
 }
